@@ -43,9 +43,19 @@ class Env:
         self.n, self.directed = n, bool(directed)
         An = NR.adjacency_of(n, directed, mask)
         self.A = An.tolist()
+        # wk >= 3: node weights of variant wk-3 and some links of length
+        # exactly 0 (coincident nodes, zero lags)
+        zero = wk >= 3
+        if zero:
+            wk -= 3
         w = NR.node_weights_of(n, wk)
         self.w = [1.0] * n if w is None else [float(x) for x in w]
         Wn = link_attr(An)
+        if zero:
+            for i in range(n):
+                for j in range(n):
+                    if An[i, j] and (min(i, j) * 2 + max(i, j)) % 3 == 1:
+                        Wn[i, j] = 0.0
         if directed:
             for i in range(n):
                 for j in range(i):
@@ -1268,6 +1278,7 @@ def run(ctx):
         ctx.notes["iso6_graphs"] = len(six)
         cases += _cross_cases(six, (0, 1, 2), lambda wk: wk == 1,
                               partial=False)
+    cases += _cross_cases(und, (4,), lambda wk: True)
     ctx.explore("cross", cases, desc="pair methods vs sub-block definition, "
                 "sparse==compiled, swap symmetry")
 
@@ -1275,12 +1286,14 @@ def run(ctx):
     cases += _internal_cases(dire, (0, 1), lambda wk: True)
     if thorough:
         cases += _internal_cases(six, (1,), lambda wk: True)
+    cases += _internal_cases(und, (4,), lambda wk: True)
+    cases += _internal_cases(dire, (4,), lambda wk: True)
     ctx.explore("internal", cases, desc="single-list methods vs sub-block "
                 "definition")
 
     g = und + dire + (iso(6, False) if thorough else [])
     ctx.explore("whole", [(n, d, m, wk) for (n, d, m) in g
-                          for wk in (0, 1, 2)],
+                          for wk in (0, 1, 2, 4)],
                 desc="both groups = whole node set reproduces Network")
 
     cases = []
